@@ -110,22 +110,31 @@ def showSlave : Option Spec.Lss.Slave → String
 
 /-! ### running a history -/
 
-def runActions : List Action → MSt DPeer → List String → MSt DPeer × List String
+/-- `step` is the peer the master talks to, `logOf` its record of the exchanges, `post` what happens
+    between the return of a call and the next action (nothing on the synchronous bus) -/
+def runActions {σ : Type} (step : PeerStep σ) (logOf : σ → List (Frame × List Frame))
+    (post : MSt σ → MSt σ) : List Action → MSt σ → List String → MSt σ × List String
   | [], st, acc => (st, acc)
-  | .rx frames :: rest, st, acc => runActions rest (deliver st frames) (acc ++ ["rx"])
+  | .rx frames :: rest, st, acc => runActions step logOf post rest (deliver st frames) (acc ++ ["rx"])
   | .call c :: rest, st, acc =>
-    let n := st.peer.log.length
-    let r := runCall dstep st c
-    runActions rest r.1 (acc ++ [s!"{showRet r.2}[{showExchanges (r.1.peer.log.drop n)}]"])
+    let n := (logOf st.peer).length
+    let r := runCall step st c
+    runActions step logOf post rest (post r.1)
+      (acc ++ [s!"{showRet r.2}[{showExchanges ((logOf r.1.peer).drop n)}]"])
+
+def finish (sent : List Frame) (p : DPeer) (toks : List String) : String :=
+  -- the master's own log of sent frames must be what the bus saw
+  let same := sent == p.log.map (·.1)
+  s!"{String.intercalate " " toks} # {showSlave p.slave}{if same then "" else " LOG-DIFFERS"}"
+
+def peer0 (slave : Option Spec.Lss.Slave) (drops : List Nat) (script : List (List Frame)) : DPeer :=
+  { slave := slave, drops := drops, script := script, count := 0, log := [] }
 
 def runHist (slave : Option Spec.Lss.Slave) (drops : List Nat) (script : List (List Frame))
     (stale : List Frame) (acts : List Action) : String :=
-  let st0 : MSt DPeer := { peer := { slave := slave, drops := drops, script := script, count := 0, log := [] },
-                           queue := [], sent := [] }
-  let r := runActions acts (deliver st0 stale) []
-  -- the master's own log of sent frames must be what the bus saw
-  let same := r.1.sent == r.1.peer.log.map (·.1)
-  s!"{String.intercalate " " r.2} # {showSlave r.1.peer.slave}{if same then "" else " LOG-DIFFERS"}"
+  let st0 : MSt DPeer := { peer := peer0 slave drops script, queue := [], sent := [] }
+  let r := runActions dstep (·.log) id acts (deliver st0 stale) []
+  finish r.1.sent r.1.peer r.2
 
 def stepHist : List String → String
   | sl :: dr :: sc :: stale :: acts =>
@@ -134,8 +143,50 @@ def stepHist : List String → String
     | _, _, _, _, _ => "bad-op"
   | _ => "bad-op"
 
+/-! ### histories with reply latency: `lhist tmo lats slave drops script stale action…`
+
+`tmo` says how `RESPONSE_TIMEOUT` is set on the Python side (`d` class default, `i<ms>` on the
+instance, `c<ms>` on the class); the model counts in percent of it (`T = 100` ticks).  `lats` is `-`
+or `k:p,…`: the reaction to request `k` of the history arrives after `p` percent of the time-out
+(`x`: never). -/
+
+def ticks : Nat := 100
+
+def parseTmo (s : String) : Bool :=
+  if s = "d" then true else
+  match s.toList with
+  | c :: rest => (c == 'i' || c == 'c') && (match (String.ofList rest).toNat? with | some n => n > 0 | none => false)
+  | [] => false
+
+def parseLat (s : String) : Option (Nat × Option Nat) :=
+  match s.splitOn ":" with
+  | [k, p] => do
+      let k ← k.toNat?
+      if p = "x" then pure (k, none) else do
+        let p ← p.toNat?
+        pure (k, some p)
+  | _ => none
+
+def parseLats (s : String) : Option Latencies :=
+  if s = "-" then some [] else (s.splitOn ",").mapM parseLat
+
+def runLHist (lats : Latencies) (slave : Option Spec.Lss.Slave) (drops : List Nat)
+    (script : List (List Frame)) (stale : List Frame) (acts : List Action) : String :=
+  let st0 : MSt (Delayed DPeer) :=
+    { peer := { inner := peer0 slave drops script, count := 0, late := [] }, queue := [], sent := [] }
+  let r := runActions (delayedStep ticks lats dstep) (·.inner.log) settle acts (deliver st0 stale) []
+  finish r.1.sent r.1.peer.inner r.2
+
+def stepLHist : List String → String
+  | tmo :: lats :: sl :: dr :: sc :: stale :: acts =>
+    match parseTmo tmo, parseLats lats, parseSlave sl, parseNatList dr, parseScript sc, parseFrames stale,
+      acts.mapM parseAction with
+    | true, some lats, some sl, some dr, some sc, some stale, some acts => runLHist lats sl dr sc stale acts
+    | _, _, _, _, _, _, _ => "bad-op"
+  | _ => "bad-op"
+
 /-- ops: `fs v p r s` (fast scan against a fresh unconfigured slave with that identity);
-    `hist slave drops script stale action…` -/
+    `hist slave drops script stale action…`; `lhist tmo lats slave drops script stale action…` -/
 def step (args : List String) : String :=
   match args with
   | ["fs", v, p, r, s] =>
@@ -145,6 +196,7 @@ def step (args : List String) : String :=
     | _, _, _, _ => "bad-op"
   | "hist" :: rest => stepHist rest
   | "thist" :: rest => stepHist rest          -- threaded delivery on the Python side, same model
+  | "lhist" :: rest => stepLHist rest
   | _ => "bad-op"
 
 end Canopen.Driver.C18
